@@ -641,6 +641,14 @@ func (t *Trans) callDynamic(fr *Frame, c *ssa.CallCommon, args []string, pos tok
 			return res
 		}
 	}
+	// a function obtained by a type assertion (MatchFunc predicates): contract "<function>@predicate"
+	if _, ok := c.Value.(*ssa.TypeAssert); ok && fr.contract != nil {
+		if cb := t.P.cbParam(fr.contract.Key, "predicate"); cb != nil {
+			names, ptypes := sigNames(sig, cb)
+			t.selfTerm = fv
+			return t.applyContract(fr, cb, "callback.predicate", sig, names, ptypes, args, nil, pos)
+		}
+	}
 	// a captured function parameter of the enclosing function: that parameter's callback contract
 	if u, ok := c.Value.(*ssa.UnOp); ok && u.Op == token.MUL {
 		if fv, ok := u.X.(*ssa.FreeVar); ok && fr.fn.Parent() != nil && t.P.finalFV[fv] {
